@@ -1304,8 +1304,11 @@ class Valuation:
             for x, y in ((t[2], t[3]), (t[3], t[2])):
                 if y[0] == 'str' and fmt(x) in self.strs:
                     return self.strs[fmt(x)] == y[1]
-        if t[0] == 'cmp' and t[1] == 'in' and self.strs and fmt(t[2]) in self.strs and t[3][0] in ('tuple', 'list', 'set') and all(z[0] == 'str' for z in t[3][1]):
-            return self.strs[fmt(t[2])] in [z[1] for z in t[3][1]]
+        if t[0] == 'cmp' and t[1] == 'in' and self.strs and fmt(t[2]) in self.strs:
+            try:
+                return self.strs[fmt(t[2])] in T.const_eval(t[3])
+            except Exception:
+                pass
         if t[0] == 'cmp' and self.nums and t[1] in ('<', '<=', '=='):
             x, y = self.value(t[2]), self.value(t[3])
             if x is not None and y is not None:
